@@ -148,7 +148,7 @@ pub(crate) fn parse_part(
             parse_time_part(chars, string)?
         }
         _ => {
-            remove_part(chars.len(), string)?;
+            remove_part(chars.chars().count(), string)?;
             None
         }
     })
@@ -369,7 +369,7 @@ pub(crate) fn parse_date_part(
         },
         'e' => parse_wday(chars.len(), string)?,
         _ => {
-            remove_part(chars.len(), string)?;
+            remove_part(chars.chars().count(), string)?;
             None
         }
     })
@@ -693,7 +693,7 @@ pub(crate) fn parse_time_part(
         'X' => parse_zone(chars.len(), string, true)?,
         'x' => parse_zone(chars.len(), string, false)?,
         _ => {
-            remove_part(chars.len(), string)?;
+            remove_part(chars.chars().count(), string)?;
             None
         }
     })
@@ -936,35 +936,48 @@ fn parse_zone(
     })
 }
 
-fn remove_part(length: usize, string: &mut String) -> Result<(), AstrolabeError> {
-    if string.chars().count() < length {
-        Err(create_invalid_format(
+/// Returns the byte index right after the first `length` chars of the string, if the string contains that many chars
+fn char_boundary(string: &str, length: usize) -> Option<usize> {
+    string
+        .char_indices()
+        .map(|(index, _)| index)
+        .chain(std::iter::once(string.len()))
+        .nth(length)
+}
+
+/// Removes the first `length` chars from the string
+pub(crate) fn remove_part(length: usize, string: &mut String) -> Result<(), AstrolabeError> {
+    match char_boundary(string, length) {
+        None => Err(create_invalid_format(
             "String to parse is too short. Please check your format string.".to_string(),
-        ))
-    } else {
-        string.replace_range(0..length, "");
-        Ok(())
+        )),
+        Some(end) => {
+            string.replace_range(0..end, "");
+            Ok(())
+        }
     }
 }
 
+/// Removes the first `length` chars from the string and parses them
 fn pick_part<T: std::str::FromStr>(
     length: usize,
     string: &mut String,
     part_name: &str,
 ) -> Result<T, AstrolabeError> {
-    if string.chars().count() < length {
-        Err(create_invalid_format(
+    match char_boundary(string, length) {
+        None => Err(create_invalid_format(
             "String to parse is too short. Please check your format string.".to_string(),
-        ))
-    } else {
-        let part = string[0..length].parse::<T>().map_err(|_| {
-            create_invalid_format(format!(
-                "Failed parsing {} from given string. Value is '{}'.",
-                part_name,
-                &string[0..length]
-            ))
-        })?;
-        string.replace_range(0..length, "");
-        Ok(part)
+        )),
+        Some(end) => {
+            let part = string[0..end].parse::<T>().map_err(|_| {
+                create_invalid_format(format!(
+                    "Failed parsing {} from given string. Value is '{}'.",
+                    part_name,
+                    &string[0..end]
+                ))
+            })?;
+            string.replace_range(0..end, "");
+            Ok(part)
+        }
     }
 }
